@@ -22,21 +22,44 @@ def main(tier, replay):
                 info = dict(kv.split("=") for kv in l.split()[1:])
     vlib.standard_coverage(chk, stats,
         "real ProjDataFromStream over std::stringstream / std::fstream, ProjDataInterfile (+ ProjData::read_from_file with the writer still open) and "
-        "ProjDataInMemory on generated geometries (8-16 detectors, 2-5 rings, span 1/3, view mashing, TOF 1/3/5 bins, trimmed axial/tangential/segment "
-        "ranges) x 2 storage orders x random segment-sequence permutations x float/short/ushort/int x both byte orders x stream offsets 0/12/37/256; "
-        "160 cases quick / 3000 thorough; random interleaved histories (30 ops quick, 80 thorough) of set/get bin, viewgram, sinogram, segment by view / by sinogram, related viewgrams "
-        "(real DataSymmetriesForBins_PET_CartesianGrid), fill, fill_from/copy_to/fill(ProjData)/begin_all iteration, ProjData::write_to_file, and requests outside every index range. "
+        "ProjDataInMemory on generated geometries (8-16 detectors, 2-5 rings, span 1/3, view mashing, TOF 1/3/5 bins, arc-corrected or not, trimmed "
+        "axial/tangential/segment ranges, 1-3 time frames) x 2 storage orders x random segment-sequence permutations x float/short/ushort/int x both "
+        "byte orders x stream offsets 0/12/37/256 x scale factor 1, 1/2 or 3 for the integer on-disk types (values are multiples k*scale, half-integers "
+        "for half of the float stores); 160 cases quick / 3000 thorough; random interleaved histories (30 ops quick, 80 thorough) of set/get bin, "
+        "viewgram, sinogram, segment by view / by sinogram, related viewgrams (real DataSymmetriesForBins_PET_CartesianGrid), fill, "
+        "fill_from/copy_to/fill(ProjData)/begin_all iteration, ProjData::write_to_file; bulk arithmetic sapyb/xapyb/axpby (scalar and element-wise), "
+        "operator+=,-=,*=,/= with ProjData and float and the ProjDataInMemory buffer specialisations / binary operators (operands are ProjDataInMemory "
+        "or streams with their OWN random layout); ProjData::get_subset; ProjDataInMemory(const ProjData&), its copy constructor and "
+        "ProjDataInMemory::read_from_file; fill(const ProjData&) from a differently laid-out stream and from a source with a WIDER segment range; "
+        "get_viewgram/get_sinogram/get_empty_viewgram with make_num_tangential_poss_odd=true; requests outside every index range to the bin "
+        "functions and to the container setters (set_viewgram with a bad view, set_sinogram with a bad axial position, set_segment with a segment "
+        "the data do not have, set_segment with a container that has an axial position too many, set_viewgram of a viewgram that is one tangential "
+        "position too wide). "
         "Per write: the element slots whose BYTES changed (byte copy of the store diffed before/after; get_offset is never called) + checksum of the "
-        "new contents decoded by the harness + visibility to a second std::ifstream before the harness flushes; per read: the values returned. "
-        "Each line is compared for equality with the Lean model's answer (exact, integers only). Oracle: reference std::map<bin,float>, full sweep "
-        "through a random other path after every write, out-of-range requests must throw and change nothing, header round trip (geometry, exam info, "
-        "segment sequence, storage order, number format, values) with the writer still open.",
+        "new ON-DISK numbers decoded by the harness + visibility to a second std::ifstream before the harness flushes; per read: the values returned. "
+        "Each line is compared for equality with the Lean model's answer (exact: integers and dyadic fractions as rationals; the model keeps the "
+        "on-disk numbers and applies round(value/scale) / number*scale itself). Oracle: reference std::map<bin,float> holding the API-level values, "
+        "full sweep through a random other path after every write (bulk operations: the element-wise result computed from the reference map), "
+        "out-of-range requests must throw / return Succeeded::no and change nothing, header round trips with the writer still open: ProjDataInterfile "
+        "-> ProjData::read_from_file and write_basic_interfile_PDFS_header on a plain file stream at a NON-ZERO data offset -> ProjData::read_from_file "
+        "(geometry incl. arc correction, every time frame, exam info, segment sequence, storage order, number format, byte order, data offset, "
+        "scale factor, values).",
         extra=dict(input_histogram=info))
-    chk.assumptions += ["values are small integers (|v| <= 250, non-negative for unsigned short) and scale factor 1, so every on-disk type is exact",
+    chk.assumptions += ["values are small multiples of the scale factor (|k| <= 250 from the generators, <= 20000 after bulk arithmetic; non-negative for "
+                        "unsigned short), so every on-disk type is exact; data that does not fit the on-disk type at the stream's scale factor "
+                        "(find_scale_factor enlarging the scale, set_* then fail) is not exercised; float on-disk data has scale factor 1",
+                        "+0 -> -0 in a float store (0 * -1 in the bulk arithmetic) is not counted as a change",
                         "32/64-bit overflow of offsets not modelled", "min_view_num is 0 (no STIR setter changes it)",
                         "timing_poss_sequence is the natural order (class documentation: changing it is not supported)",
                         "byte encoding of values (numeric type, byte order) is decoded by the harness, not modelled in Lean",
-                        "OS page cache / fstream buffering is runtime: the model only says which set_* ends with flush()"]
+                        "OS page cache / fstream buffering is runtime: the model only says which set_* ends with flush()",
+                        "operands of the bulk arithmetic are read through their own get_segment_by_sinogram (tested as destination objects elsewhere in the "
+                        "same run); the model takes their values in that order",
+                        "Interfile header text is not modelled (header round trips are oracle-only); SPECT headers, several energy windows and the "
+                        "Siemens/ECAT/GE readers are not exercised; get_subset is compared positionally (ProjDataInfoSubsetByView renumbers shifted "
+                        "tangential ranges)",
+                        "cfg flags read off the implementation by probes (view/tang range checks, flush and scale factor in set_bin_value, axial-size check "
+                        "in set_segment) select the model's branch; an unrepaired branch is reported through the oracle as KNOWN-CANDIDATE"]
     if audit:
         vlib.proof_coverage(chk, audit, "cd lean && lake build StirVerif stirdriver && lake env lean ../build/out/Audit_C02.lean")
     return chk.finish()
